@@ -6,6 +6,7 @@ require github.com/tsawler/tabula v0.0.0
 
 require (
 	golang.org/x/image v0.18.0 // indirect
+	golang.org/x/net v0.20.0 // indirect
 	golang.org/x/text v0.16.0 // indirect
 )
 
